@@ -5,6 +5,9 @@ set -u
 cd "$(dirname "$0")/pkg"
 export PATH=/opt/veriftools/go1.26.8/bin:$PATH GOTOOLCHAIN=local GOFLAGS=-mod=mod GOPROXY=off
 FUNCS=$(grep -o '^func \(([a-z]* \*\?[A-Za-z]*) \)\?\(Good\|Bad\)[A-Za-z]*' st.go | sed -E 's/^func \(([a-z]+) (\*?)([A-Za-z]+)\) /.(\2\3)./; s/^func /./; s/^\.\(/selftest.(/; s/^\./selftest./' | sed 's/^selftest\./selftest./' | paste -sd, -)
+# closures under contract are named in "// selftest-extra: <key>" lines
+EXTRA=$(grep -o '^// selftest-extra: .*' st.go | sed 's/^\/\/ selftest-extra: //' | paste -sd, -)
+[ -n "$EXTRA" ] && FUNCS="$FUNCS,$EXTRA"
 OUT=$(mktemp)
 ../../bin/govc -repo "$PWD" -specs "" -funcs "$FUNCS" -json-summary 2>/dev/null > "$OUT"
 rc=0
